@@ -52,10 +52,35 @@ def toy(p, a, b, n, g, toy_hash=False, toy_hmac=False):
         if toy_hmac:
             saved.setdefault((hd, "hmac_sha512"), hd.hmac_sha512)
             hd.hmac_sha512 = toy_hmac512
+        _selfcheck(pecc, hd, p, a, b, n, g, toy_hash, toy_hmac)
         yield pecc
     finally:
         for (m, name), val in saved.items():
             setattr(m, name, val)
+
+
+def _selfcheck(pecc, hd, p, a, b, n, g, toy_hash, toy_hmac):
+    """The toy replay is only meaningful while rebinding the module constants really re-parameterises the library's code.  If a
+    (perfectly legitimate) refactor inlines a constant or imports a hash under another name, the rebinding silently stops working
+    and every table row would 'disagree': that is a limitation of this binding, not a defect of the library, so it is reported
+    as a machinery failure (exit 2), never as a violation."""
+    from .core import MachineryError
+    try:
+        G = pecc.G
+        # only what shows that the constants are picked up -- never the correctness of the arithmetic, which is what the replay decides
+        ok = (G.x.num, G.y.num) == tuple(g) and G.x.prime == p and G.a.num == a and G.b.num == b and G.a.prime == p
+        ok = ok and pecc.N == n and pecc.P == p
+        ok = ok and pecc.S256Field(1).prime == p
+        one = pecc.PrivateKey(1).point
+        ok = ok and one.x is not None and one.x.prime == p
+        if toy_hash:
+            ok = ok and pecc.hash_challenge(b"\x01\x02") == toy_h(3, b"\x01\x02")
+        if toy_hmac:
+            ok = ok and hd.hmac_sha512(b"k", b"d") == toy_hmac512(b"k", b"d")
+    except Exception as e:         # noqa: BLE001
+        raise MachineryError("toy re-parameterisation of buidl.pecc failed its self-check (%s: %s): the toy binding does not apply to this tree" % (type(e).__name__, e))
+    if not ok:
+        raise MachineryError("toy re-parameterisation of buidl.pecc no longer takes effect (constants inlined or renamed?): the toy binding does not apply to this tree")
 
 
 def toy_h(tag, b):
